@@ -204,15 +204,16 @@ def check_no_overrun(R, F):
     R.require(wcallers == sorted([W + 'try_push', W + 'write_u16']), 'octets-writers', W + 'write|callers', F.fn(W + 'write').where(),
               'raw write is called only by try_push and write_u16', 'the unchecked raw writer is called by %s, expected only try_push and write_u16' % wcallers)
     tp = F.fn(W + 'try_push')
+    from qv.bounds import Analyzer, add, le, lin
+    from rules import e5
+    an = Analyzer(tp, F, e5.make_summary(F))
     for b, t in calls_in(tp, W + 'write'):
+        # decided by the linear engine: whatever way the test is spelled, cursor + len(data) <= available at the write
+        an._site = (b, None)
+        L = e5._len_of_arg(an, t['args'][2])
         ok = False
-        for s_ in tp.doms(b):
-            for p in tp.preds()[s_]:
-                sw = tp.blocks[p]['term']
-                if sw['k'] == 'switch' and not tp.dominates(s_, p):
-                    txt = paths.explain_edge(tp, p, s_)
-                    if txt and re.match(r'^Ge\(Sub\(arg1\.available,arg1\.cursor\),slice::len\(arg2\)\) not in \[0\]$', txt):
-                        ok = True
+        if L is not None:
+            ok, _, _ = an.prove(b, None, [le(add(lin('P:(*_1).cursor'), L), lin('P:(*_1).available'))])
         pos = paths.show_operand(tp, t['args'][1])
         R.require(ok and pos == 'arg1.cursor', 'try-push-guard', W + 'try_push|write', tp.where(b),
                   'write(cursor, data) is dominated by available - cursor >= len(data)', 'the buffer write in try_push is not dominated by the available - cursor >= len(data) test, or does not write at the cursor (%s)' % pos)
